@@ -43,6 +43,11 @@ def run(chk):
             items.append({"tp": t, "builder": "harness.corpus.realise_tp", "seed": chk.seed * 100003 + i, "scalar": "float64",
                           "ninputs": 1 if quick else 2, "options": {"sum_factorization": sfv}, "geom": "affine",
                           "max_entities": 2, "label": f"tp/{t['cell']}/Q{t['degree']}/{t['term']}|sf={int(sfv)}"})
+    # irrational bases (GLL degree 3): no exact oracle, but the two kernels must agree with each other
+    for k, cl in enumerate(("quadrilateral",) if quick else ("quadrilateral", "hexahedron")):
+        items.append({"tp": {"cell": cl, "degree": 3, "term": "gllcoef"}, "builder": "harness.corpus.realise_tp", "seed": chk.seed + 40 + k,
+                      "scalar": "float64", "ninputs": 2, "geom": "affine", "no_oracle": True, "options": {"sum_factorization": True},
+                      "twin_options": {"sum_factorization": False}, "label": f"tp/{cl}/Q3gll/gllcoef|sf=1-vs-0"})
     # ordinary elements: the option is off, or does not apply
     add(s5.sample_cases(tp, 4 if quick else 60, chk.seed, max_cost=40 if quick else 400), {"sum_factorization": False}, "sf=0")
     dg = s5.sample_cases(r2, 12 if quick else 120, chk.seed + 2, max_cost=40 if quick else 400)
@@ -77,6 +82,20 @@ def run(chk):
                           f"{it['label']}: part='diagonal' does not apply to this form (rank < 2) but compilation fails: {r['why'][:200]}",
                           {"item": it})
     nz = s5.report(chk, items, recs)
+    import numpy as np
+    ntwin = 0
+    for r in recs:
+        m = r.get("meas")
+        if m and m.get("c_twin") and "A_twin" in m["c_twin"]:
+            ntwin += 1
+            A = np.array([complex(a, b) for a, b in m["A"]])
+            At = np.array([complex(a, b) for a, b in m["c_twin"]["A_twin"]])
+            tol = 1e-10 * (1 + float(np.max(np.abs(At))))
+            if float(np.max(np.abs(A - At))) > tol or not np.any(At):
+                lab = items[r["item"]]["label"]
+                chk.violation(f"{lab}:kernels-differ", f"{lab}: the kernels compiled with and without the option differ: max |diff| = "
+                              f"{float(np.max(np.abs(A - At))):.3g} (tensor magnitude {float(np.max(np.abs(At))):.3g})", {"item": items[r["item"]]})
+    chk.add(option_twin_comparisons=ntwin)
     tags = {}
     for (lab, *_r) in nz:
         tags[lab.split("|")[1]] = tags.get(lab.split("|")[1], 0) + 1
